@@ -6,7 +6,7 @@ from props import netprops
 LEVEL = "proof"
 RULE = ("exhaustive matrix: (read, write, connect) in {None, 0, 1 ns, 1 ms, u64::MAX s}^3 x retries in {0, 1, 2, usize::MAX-1, "
         "usize::MAX} through TimeoutSettings::new and through serde (serde_json::from_str); command-line flags (clap try_parse_from) "
-        "over {omitted, 0, 00, +0, 1, u64::MAX, 2^64, -1, 1.5, abc, empty}^3 x retries spellings; Default. Every accepted value is then "
+        "over {omitted, 0, 00, +0, 1, u64::MAX, 2^64, -1, 1.5, abc, empty, nan, inf, 1e30, 1e-10, 0.0}^3 x retries spellings; Default. Every accepted value is then "
         "used to open a real UDP and a real TCP socket (apply_timeout's unwraps and connect_timeout are live) and, with the extreme "
         "retry counts, for one scripted query per modelled protocol family. Oracle: zero anywhere => InvalidInput on every path; otherwise "
         "accepted unchanged and usable. Non-trivial = every case (all are distinct configurations).")
@@ -17,7 +17,7 @@ TRUSTED = ["hand-written Lean model of TimeoutSettings and its uses, checked aga
 UMAX = 18446744073709551615
 DURS = ["-", "0:0", "0:1", "0:1000000", f"{UMAX}:0"]
 RETRIES = [0, 1, 2, UMAX - 1, UMAX]
-FLAGS = ["_", "0", "00", "+0", "1", str(UMAX), str(UMAX + 1), "-1", "1.5", "abc", ""]
+FLAGS = ["_", "0", "00", "+0", "1", str(UMAX), str(UMAX + 1), "-1", "1.5", "abc", "", "nan", "inf", "1e30", "1e-10", "0.0"]
 
 
 def hexs(s):
